@@ -1050,3 +1050,117 @@ Section Toy.
     /\ (forall s, mapped_wt zk2 inpD (lf_fresh zk2 inpD) s = mapped_map zk2 inpD (omm_list_of zk2 inpD (lf_fresh zk2 inpD)) s).
   Proof. repeat split. Qed.
 End Toy.
+
+(* ================================================================================================ *)
+(* Part F: the w-tilde class may return a preloaded _data_vector_mapper as THE data vector when there is no
+   function object: assigning consecutive blocks of the right lengths into zeros is concatenation.  So the third
+   law of [laws_for] follows, for that class, from the shape law of one kernel. *)
+Section Concat.
+  Variable T : Type.
+  Variable K : kernels T.
+  Notation z := (t0 K).
+
+  Lemma imap_app {A} (f : nat -> A -> A) l1 : forall i l2,
+    imap f i (l1 ++ l2) = imap f i l1 ++ imap f (i + length l1) l2.
+  Proof.
+    induction l1 as [|a l1 IH]; intros i l2; simpl.
+    - now rewrite Nat.add_0_r.
+    - rewrite IH. now replace (S i + length l1) with (i + S (length l1)) by lia.
+  Qed.
+  Lemma imap_ext_idx {A} (f g : nat -> A -> A) l : forall i,
+    (forall k x, i <= k < i + length l -> f k x = g k x) -> imap f i l = imap g i l.
+  Proof.
+    induction l as [|a l IH]; intros i H; simpl; [reflexivity|].
+    rewrite H by (simpl; lia). rewrite IH; [reflexivity|]. intros k x Hk. apply H. simpl. lia.
+  Qed.
+  Lemma imap_fill (b : vec T) : forall lo (mid : vec T),
+    length mid = length b -> imap (fun k _ => nth (k - lo) b z) lo mid = b.
+  Proof.
+    induction b as [|b0 b IH]; intros lo mid H; destruct mid as [|m0 mid]; simpl in *; try discriminate; [reflexivity|].
+    rewrite Nat.sub_diag. f_equal.
+    transitivity (imap (fun k (_ : T) => nth (k - S lo) b z) (S lo) mid); [|apply IH; lia].
+    apply imap_ext_idx. intros k x Hk. replace (k - lo) with (S (k - S lo)) by lia. reflexivity.
+  Qed.
+  Lemma apply_vw_block pre mid suf b :
+    length mid = length b ->
+    apply_vw K (pre ++ mid ++ suf) {| vw_lo := length pre; vw_hi := length pre + length b; vw_b := b |} = pre ++ b ++ suf.
+  Proof.
+    intro H. unfold apply_vw. simpl. rewrite !imap_app. simpl. f_equal; [|f_equal].
+    - transitivity (imap (fun _ (x : T) => x) 0 pre); [|apply imap_id]. apply imap_ext_idx. intros k x Hk. unfold in_rng.
+      replace (length pre <=? k) with false by (symmetry; apply Nat.leb_gt; lia). reflexivity.
+    - transitivity (imap (fun k (_ : T) => nth (k - length pre) b z) (0 + length pre) mid); [|apply imap_fill; exact H].
+      apply imap_ext_idx. intros k x Hk. unfold in_rng.
+      replace (length pre <=? k) with true by (symmetry; apply Nat.leb_le; lia).
+      replace (k <? length pre + length b) with true by (symmetry; apply Nat.ltb_lt; lia). reflexivity.
+    - transitivity (imap (fun _ (x : T) => x) (0 + length pre + length mid) suf); [|apply imap_id].
+      apply imap_ext_idx. intros k x Hk. unfold in_rng.
+      replace (k <? length pre + length b) with false by (symmetry; apply Nat.ltb_ge; lia).
+      now rewrite andb_false_r.
+  Qed.
+  Fixpoint cwrites (off : nat) (bs : list (vec T)) : list (vwrite T) :=
+    match bs with
+    | [] => []
+    | b :: t => {| vw_lo := off; vw_hi := off + length b; vw_b := b |} :: cwrites (off + length b) t
+    end.
+  Lemma apply_cwrites bs : forall pre suf,
+    apply_vws K (pre ++ repeat z (length (concat bs)) ++ suf) (cwrites (length pre) bs) = pre ++ concat bs ++ suf.
+  Proof.
+    induction bs as [|b bs IH]; intros pre suf; simpl; [reflexivity|].
+    unfold apply_vws. simpl. fold (apply_vws K). rewrite app_length, repeat_app, <- app_assoc.
+    rewrite apply_vw_block by apply repeat_length.
+    replace (pre ++ b ++ repeat z (length (concat bs)) ++ suf) with ((pre ++ b) ++ repeat z (length (concat bs)) ++ suf)
+      by now rewrite <- app_assoc.
+    replace (length pre + length b) with (length (pre ++ b)) by apply app_length.
+    unfold apply_vws in IH. rewrite IH. now rewrite <- !app_assoc.
+  Qed.
+End Concat.
+
+Section DvmLaw.
+  Variable T : Type.
+  Variable K : kernels T.
+  Variable inp : input T.
+  Definition shape_dv_wt : Prop := forall wtd M p, length (k_dv_wt K wtd M p) = p.
+
+  Lemma filter_neg_nil {A} (f : A -> bool) l : filter (fun x => negb (f x)) l = [] -> filter f l = l.
+  Proof.
+    induction l as [|a l IH]; simpl; [reflexivity|]. destruct (f a); simpl; [intro H; now rewrite IH | discriminate].
+  Qed.
+  Lemma ranges_from_length (l : list (lobj T)) : forall off, length (ranges_from off l) = length l.
+  Proof. induction l as [|o l IH]; intro off; simpl; [reflexivity|now rewrite IH]. Qed.
+  Lemma writes_are_cwrites (blk : lobj T -> vec T) l : (forall o, length (blk o) = lo_p o) -> forall off,
+    map (fun x : lobj T * (nat * nat) => {| vw_lo := fst (snd x); vw_hi := snd (snd x); vw_b := blk (fst x) |})
+        (combine l (ranges_from off l)) = cwrites T off (map blk l).
+  Proof.
+    intros Hs. induction l as [|o l IH]; intro off; simpl; [reflexivity|]. rewrite Hs. now rewrite IH.
+  Qed.
+  Lemma total_sum (blk : lobj T -> vec T) l : (forall o, length (blk o) = lo_p o) -> forall a,
+    fold_left (fun a o => a + lo_p o) l a = a + length (concat (map blk l)).
+  Proof.
+    intros Hs. induction l as [|o l IH]; intro a; simpl; [lia|]. rewrite IH, app_length, Hs. lia.
+  Qed.
+
+  Theorem dvm_law_wt w : shape_dv_wt -> has_func inp = false -> p_dvm K inp (Some w) = p_dv K inp (Some w).
+  Proof.
+    intros Hs Ef. unfold p_dvm, p_dv. rewrite Ef.
+    set (blk := fun o : lobj T => k_dv_wt K (p_wtd K inp) (lo_mm o) (lo_p o)).
+    assert (Hb : forall o, length (blk o) = lo_p o) by (intro o; apply Hs).
+    assert (Hm : mappers inp = orng inp).
+    { unfold mappers. apply filter_neg_nil. unfold has_func in Ef. fold (funcs inp).
+      destruct (funcs inp); [reflexivity|discriminate]. }
+    assert (Hd : apply_vws K (zeros_v K (total inp)) (dvm_writes_wt K inp (p_wtd K inp)) = concat (map blk (objs inp))).
+    { assert (Hw : dvm_writes_wt K inp (p_wtd K inp) = cwrites T 0 (map blk (objs inp))).
+      { unfold dvm_writes_wt. rewrite Hm. unfold orng. exact (writes_are_cwrites blk (objs inp) Hb 0). }
+      rewrite Hw. unfold zeros_v, total. rewrite (total_sum blk (objs inp) Hb 0). simpl.
+      pose proof (apply_cwrites T K (map blk (objs inp)) [] []) as H. simpl in H. rewrite !app_nil_r in H. exact H. }
+    rewrite Hd. destruct (Nat.eqb (length (mappers inp)) 1) eqn:En; [|reflexivity].
+    apply Nat.eqb_eq in En. rewrite Hm in En. unfold orng in En. rewrite combine_length, ranges_from_length, Nat.min_id in En.
+    unfold objs in *. destruct (in_objs inp) as [|o [|o2 l]]; try discriminate. simpl. now rewrite app_nil_r.
+  Qed.
+End DvmLaw.
+
+Arguments shape_dv_wt {T} K.
+(* the toy kernels satisfy the shape law, and inpD (one mapper, no function object) is in its scope *)
+Lemma zk_shape : shape_dv_wt zk.
+Proof. intros wtd M p. apply repeat_length. Qed.
+Lemma inpD_no_func : has_func inpD = false.
+Proof. reflexivity. Qed.
